@@ -62,8 +62,15 @@ def absorb(ctx, log, pid, what_prefix="data race reported by the Go race detecto
     """append one oracle hit per distinct site pair; returns the number of reports"""
     reports = parse(log or "", os.environ.get("VERIF_REPO", "/repo"))
     seen = set()
+    ignored = 0
     for r in reports:
         (k1, s1), (k2, s2) = r["sites"]
+        # both accesses inside the repository's own *_test.go files (their init() functions start
+        # listeners on fixed ports that another test binary running on this machine may hit while
+        # the package is still initialising): not keymaster code, not the harness
+        if all(s[1].split(":")[0].endswith("_test.go") and not s[1].startswith("zz_verif_") for s in (s1, s2)):
+            ignored += 1
+            continue
         fns = sorted([s1[0], s2[0]])
         key = "%s:race:%s|%s" % (pid, fns[0], fns[1])
         if s1[2] and s2[2]:
@@ -75,5 +82,7 @@ def absorb(ctx, log, pid, what_prefix="data race reported by the Go race detecto
                          "kind": "schedule",
                          "what": "%s: %s in %s (%s) vs %s in %s (%s)" % (what_prefix, k1.lower(), s1[0], s1[1], k2.lower(), s2[0], s2[1]),
                          "case": {"sites": [s1[:2], s2[:2]]}, "observed": r["text"]})
-    ctx.dist["race_reports"] = ctx.dist.get("race_reports", 0) + len(reports)
-    return len(reports)
+    ctx.dist["race_reports"] = ctx.dist.get("race_reports", 0) + len(reports) - ignored
+    if ignored:
+        ctx.dist["race_reports_in_repo_test_files_ignored"] = ctx.dist.get("race_reports_in_repo_test_files_ignored", 0) + ignored
+    return len(reports) - ignored
